@@ -130,7 +130,8 @@ def run_case(seed):
         has_nan = True
     root = core.scratch_dir(f"c18_{seed}")
     os.makedirs(root)
-    path = os.path.join(root, 'plt00010')
+    # (a directory name with dots in it: a time-stamped series plt_t0.25, plt_t0.50 ...)
+    path = os.path.join(root, random.Random(seed * 211 + 1).choice(['plt00010', 'plt00010', 'plt_t0.25', 'plt00010.old']))
     gen.write_plotfile(pf, path)
     keys = list(pf.fields)
     count(f"ndims={ndims}")
